@@ -23,17 +23,38 @@ vf_clk vf_vc[VF_NTHREADS][VF_NTHREADS];       /* vector clock of each thread */
 vf_clk vf_acqpend[VF_NTHREADS][VF_NTHREADS];  /* clocks seen by relaxed loads, joined at an acquire fence */
 vf_clk vf_relfence[VF_NTHREADS][VF_NTHREADS]; /* clock at the last release fence */
 _Bool vf_has_relfence[VF_NTHREADS];
-vf_clk vf_at_vc[VF_RACE_ATOMS][VF_NTHREADS];  /* release clock carried by the atomic's current value */
+/* Release clocks carried by the current value of an atomic object.  vf_at_hd[a][h] is the clock of the
+ * release sequence headed by thread h's latest release operation on a (0 = none); vf_at_vc[a] is the
+ * join over all heads = what an acquire operation reading the current value synchronises with. */
+vf_clk vf_at_hd[VF_RACE_ATOMS][VF_NTHREADS][VF_NTHREADS];
+vf_clk vf_at_vc[VF_RACE_ATOMS][VF_NTHREADS];
+uint64_t vf_at_key[VF_RACE_ATOMS];
 int vf_pr_wt[VF_RACE_PROBES];                 /* last writer thread, -1 none */
 vf_clk vf_pr_wc[VF_RACE_PROBES];              /* its clock */
 vf_clk vf_pr_rc[VF_RACE_PROBES][VF_NTHREADS]; /* last read clock per thread */
+uint64_t vf_pr_key[VF_RACE_PROBES];
 
-/* Atomic objects are kept in a small direct-mapped table keyed by a hash of the address; two atomics
- * that collide share one release clock, which can only ADD happens-before edges (fewer race reports,
- * never a false one). */
+/* Both tables are keyed by the exact address (open addressing, linear probing, entries are never
+ * removed), so two objects never share an entry: a shared atomic entry would add happens-before edges
+ * (missed races), a shared probe entry would invent races.  [An earlier version used direct-mapped
+ * tables and cut (assume) every execution in which two probe addresses collided; with 6 probe addresses
+ * in 8 slots that silently removed most executions -- a mutant-sized hole.]  A full table is reported
+ * as an `rt:` failure (raise VF_RACE_ATOMS / VF_RACE_PROBES in rt_defs), never silently. */
+static int vf_race_slot(uint64_t *keys, int n, uint64_t k) {
+  int h = (int)(((k >> 54) ^ (k >> 6) ^ (k >> 2)) & (uint64_t)(n - 1));
+  int r = -1;
+  for (int j = 0; j < n; j++) {
+    int i = (h + j) & (n - 1);
+    if (r < 0 && (keys[i] == k || keys[i] == 0)) r = i;
+  }
+  __CPROVER_assert(r >= 0, "rt: race detector table full (raise VF_RACE_ATOMS / VF_RACE_PROBES)");
+  __CPROVER_assume(r >= 0);
+  return r;
+}
 static int vf_race_atom(void *p) {
-  uint64_t k = (uint64_t)p;
-  return (int)(((k >> 54) ^ (k >> 6) ^ (k >> 3)) & (VF_RACE_ATOMS - 1));
+  int a = vf_race_slot(vf_at_key, VF_RACE_ATOMS, (uint64_t)p);
+  vf_at_key[a] = (uint64_t)p;
+  return a;
 }
 static void vf_race_tick(int t) {
   __CPROVER_assume(vf_vc[t][t] < 250); /* model bound */
@@ -42,14 +63,32 @@ static void vf_race_tick(int t) {
 void vf_race_init(void) {
   for (int t = 0; t < VF_NTHREADS; t++) vf_vc[t][t] = 1;
 }
+/* Release sequences ([intro.races]): headed by a release operation A on M, continued by
+ *  - read-modify-write operations of any thread, and
+ *  - (C++11/14/17, the language level dispenso is written in) later plain stores to M by the thread
+ *    that performed A.  C++20 (P0982R1) removed this second clause; define VF_RACE_CXX20 to check
+ *    against the C++20 rule (reports strictly more races).
+ * A plain store by thread t therefore ends the sequences headed by every OTHER thread and (pre-C++20)
+ * keeps the one headed by t itself.  A relaxed store/RMW after a release fence of the same thread
+ * behaves like a release operation carrying the fence's clock ([atomics.fences]). */
 void vf_race_store(void *p, int o) {
   int t = vf_tid, a = vf_race_atom(p);
-  for (int u = 0; u < VF_NTHREADS; u++) {
-    vf_clk c = 0;
-    if (o == VF_REL || o == VF_AR || o == VF_SC) c = vf_vc[t][u];
-    else if (vf_has_relfence[t]) c = vf_relfence[t][u];
-    vf_at_vc[a][u] = c; /* a plain store starts a new release sequence (or none) */
-  }
+  _Bool rel = (o == VF_REL || o == VF_AR || o == VF_SC);
+  for (int h = 0; h < VF_NTHREADS; h++)
+    for (int u = 0; u < VF_NTHREADS; u++) {
+      vf_clk c = 0;
+      if (h == t) {
+        if (rel) c = vf_vc[t][u];
+        else {
+#ifndef VF_RACE_CXX20
+          c = vf_at_hd[a][t][u]; /* continues the release sequence headed by t's own earlier release */
+#endif
+          if (vf_has_relfence[t] && vf_relfence[t][u] > c) c = vf_relfence[t][u];
+        }
+      }
+      vf_at_hd[a][h][u] = c;
+    }
+  for (int u = 0; u < VF_NTHREADS; u++) vf_at_vc[a][u] = vf_at_hd[a][t][u];
   vf_race_tick(t);
 }
 void vf_race_load(void *p, int o) {
@@ -69,10 +108,11 @@ void vf_race_rmw(void *p, int o) {
     else if (old > vf_acqpend[t][u]) vf_acqpend[t][u] = old;
   }
   for (int u = 0; u < VF_NTHREADS; u++) {
-    /* release side: an RMW continues the release sequence and may add its own clock */
+    /* release side: an RMW continues every release sequence and may head one of its own */
     vf_clk add = 0;
     if (o == VF_REL || o == VF_AR || o == VF_SC) add = vf_vc[t][u];
     else if (vf_has_relfence[t]) add = vf_relfence[t][u];
+    if (add > vf_at_hd[a][t][u]) vf_at_hd[a][t][u] = add;
     if (add > vf_at_vc[a][u]) vf_at_vc[a][u] = add;
   }
   vf_race_tick(t);
@@ -99,17 +139,12 @@ void vf_race_join(int child) {
   for (int u = 0; u < VF_NTHREADS; u++)
     if (vf_vc[child][u] > vf_vc[t][u]) vf_vc[t][u] = vf_vc[child][u];
 }
-/* Probe addresses must be exact (a collision would invent a race): direct-mapped with the key
- * stored; executions in which two live probe addresses collide are cut (model bound). */
-uint64_t vf_pr_key[VF_RACE_PROBES];
 static int vf_race_probe(void *p) {
-  uint64_t k = (uint64_t)p;
-  int i = (int)(((k >> 54) ^ (k >> 6) ^ (k >> 2)) & (VF_RACE_PROBES - 1));
+  int i = vf_race_slot(vf_pr_key, VF_RACE_PROBES, (uint64_t)p);
   if (vf_pr_key[i] == 0) {
-    vf_pr_key[i] = k;
+    vf_pr_key[i] = (uint64_t)p;
     vf_pr_wt[i] = -1;
   }
-  __CPROVER_assume(vf_pr_key[i] == k); /* model bound */
   return i;
 }
 void vf_race_write(void *p) {
